@@ -133,6 +133,16 @@ func TestKvcBoundedAggregates(t *testing.T) {
 		[]string{`["s:xa" "s:bc" "int64:1"]`, `["s:xab" "s:c" "int64:1"]`})
 	check("select substr(key, 0, 1) as g, strlen(value) as n, sum(n) as s, group_concat(n, ',') as c where key ^= 'a' | key ^= 'b' group by g, n",
 		[]string{`["s:a" "s:9" "int64:18" "s:9,9"]`, `["s:b" "s:3" "int64:3" "s:3"]`})
+	// arithmetic around several different aggregates in one field: each call keeps its own function
+	n := newKvcbStore()
+	for i, v := range []string{"1", "11", "6", "5", "7", "6"} {
+		n.Put([]byte(fmt.Sprintf("%c%d", 'a'+byte(i/3), i)), []byte(v))
+	}
+	s = n
+	check("select substr(key, 0, 1) as g, sum(int(value)) / count(1) as m, max(int(value)) - min(int(value)) as w, sum(int(value)) * 2 + count(1) as t, min(int(value)) + max(int(value)) * count(1) as u where key >= 'a' group by g",
+		[]string{`["s:a" "int64:6" "int64:10" "int64:39" "int64:34"]`, `["s:b" "int64:6" "int64:2" "int64:39" "int64:26"]`})
+	check("select count(1) * 100 + sum(int(value)) as t, max(int(value)) - min(int(value)) as w where key >= 'a'",
+		[]string{`["int64:636" "int64:10"]`})
 }
 
 // the expression rewrite preserves values (C04): every arithmetic tree of the shapes below over the
@@ -389,7 +399,7 @@ func TestKvcBoundedLimit(t *testing.T) {
 		"select substr(key, 0, 2) as g, sum(int(value)) as t where key ^= 'k' group by g order by g desc",
 	}
 	offsets := []int{0, 1, 2, 31, 32, 33, 69, 70, 71}
-	counts := []int{0, 1, 2, 31, 32, 33, 100}
+	counts := []int{0, 1, 2, 31, 32, 33, 100, 9223372036854775807} // (the last: "offset only")
 	n, bad := 0, 0
 	for _, size := range []int{0, 1, 5, 33, 70} {
 		s := kvcbNumStore(size)
@@ -402,10 +412,13 @@ func TestKvcBoundedLimit(t *testing.T) {
 				}
 				for _, off := range offsets {
 					for _, cnt := range counts {
-						if bs != 32 && (off > 33 || cnt > 33) && size > 33 {
+						if bs != 32 && (off > 33 || (cnt > 33 && cnt < 1000)) && size > 33 {
 							continue // (the small batch sizes take the smaller windows only)
 						}
 						lo, hi := off, off+cnt
+						if hi < lo { // off + cnt overflows: everything from off on
+							hi = len(all)
+						}
 						if lo > len(all) {
 							lo = len(all)
 						}
